@@ -8,7 +8,9 @@
    segment behind the CONNECT stay in request.buffer and are DROPPED by the example class, so [rem] is
    ignored here; RError = queue
    these pieces and return True; RIncomplete = wait; RRaise = exception).
-   No try/except anywhere in tcp_tunnel.py: every exception of recv/flush escapes handle_events. *)
+   No try/except anywhere in tcp_tunnel.py: every exception of recv/flush escapes handle_events.
+   The model describes the class WITH commit 76c50ed (proposed_fixes/C07-tunnel-upstream-eof.diff) (upstream EOF waits for
+   the client buffer instead of returning True at once). *)
 From PM Require Import Lib.Bytes Net.Conn Net.Handler.
 From Coq Require Import ZArith.
 
@@ -36,11 +38,12 @@ Definition base_handle_events (hd : hstate -> bytes -> hstate * option bool) (c 
   | (s1, e) => (s1, e)
   end.
 
-(* get_events: client events of the base class; upstream READ when connected, WRITE when it has a buffer *)
+(* get_events: client events of the base class; upstream READ when connected and not in the final flush
+   (commit 76c50ed (proposed_fixes/C07-tunnel-upstream-eof.diff)), WRITE when it has a buffer *)
 Definition tunnel_get_events (s : hstate) : interest :=
   let '(cr, cw) := base_get_events s in
   match upstream s with
-  | Some u => mkInt cr cw true (has_buffer u)
+  | Some u => mkInt cr cw (negb (must_flush s)) (has_buffer u)
   | None => mkInt cr cw false false
   end.
 
@@ -49,29 +52,35 @@ Definition tunnel_get_events (s : hstate) : interest :=
      if upstream readable: data = upstream.recv(); if data is None: return True; work.queue(data)
      if upstream writable: upstream.flush()
      return False *)
+(* the upstream part of handle_events, with commit 76c50ed (proposed_fixes/C07-tunnel-upstream-eof.diff):
+     if upstream readable: data = upstream.recv()
+        if data is None:                              (server closed)
+            if not work.has_buffer(): return True
+            must_flush_before_shutdown = True; return False      (was: return True, dropping the buffer)
+        work.queue(data)
+     if upstream writable: upstream.flush()
+     return False *)
 Definition tunnel_server_events (c : cfg) (ev : event) (s1 : hstate) : hstate * res :=
   match upstream s1 with
   | None => (s1, Continue)
   | Some u =>
-      let rd : hstate * res :=
-        if u_r ev then
-          match u_recv ev with
-          | REof => (s1, Teardown)
-          | RData [] => (s1, Teardown)
-          | RData raw => (client_queue raw (note_up_rcvd raw s1), Continue)
-          | _ => (s1, Raised)
+      let server_closed : hstate * res :=
+        if has_buffer (work s1) then (set_must_flush true s1, Continue) else (s1, Teardown) in
+      let write_part (s2 : hstate) : hstate * res :=
+        if u_w ev then
+          match flush (max_send c) (u_send ev) u with
+          | (u', Flushed _) => (set_upstream (Some u') s2, Continue)
+          | (_, _) => (s2, Raised)
           end
-        else (s1, Continue) in
-      match rd with
-      | (s2, Continue) =>
-          if u_w ev then
-            match flush (max_send c) (u_send ev) u with
-            | (u', Flushed _) => (set_upstream (Some u') s2, Continue)
-            | (_, _) => (s2, Raised)
-            end
-          else (s2, Continue)
-      | r => r
-      end
+        else (s2, Continue) in
+      if u_r ev then
+        match u_recv ev with
+        | REof => server_closed
+        | RData [] => server_closed
+        | RData raw => write_part (client_queue raw (note_up_rcvd raw s1))
+        | _ => (s1, Raised)
+        end
+      else write_part s1
   end.
 
 Definition tunnel_handle_events (c : cfg) (ev : event) (s : hstate) : hstate * res :=
